@@ -1,5 +1,6 @@
 import DdsModel.Eval
 import DdsProofs.Cone
+import DdsProofs.Closure
 /-!
 # C02 — nothing is recomputed unless something it depends on changed
 
@@ -16,8 +17,12 @@ Stage 2 (over the whole model, loads included unless said otherwise):
 * `reeval_runs_nothing` — after a successful evaluation of a kept function on a real store, every evaluation whose
   analysis gives the root the same signature (identical re-evaluation, another process, a revert back to this version,
   the same code elsewhere) executes no body at all and returns the stored value.
-PARTIAL: for an `eval` entry (no root path) the statement that no *kept* body re-runs needs the closure of the blob
-set under kept sub-calls; it is decided by the check on every history step (executed set == model's).
+* `reeval_recomputes_nothing` (load-free fragment, over a `Universe`, real store) — also when the root is *not* kept
+  (`dds.eval` of a plain function): after a successful evaluation, an evaluation — of any version, any request —
+  whose root gets the same signature finds every kept call of its tree in the store and writes no blob: no kept function is
+  recomputed. It rests on `Closure.lean`: the blob set is closed under kept sub-calls (`Closed`, preserved by every
+  evaluation), the signature determines the shape of the interaction tree (`sig_shape`), a successful run covers its tree
+  (`cov_fn`), a covered tree runs without writing (`hit_fn`).
 -/
 namespace Dds.C02
 open Dds
@@ -65,5 +70,22 @@ theorem reeval_runs_nothing {m : Nat} {W : World} {S : PStore} {rq : Request} {f
   rw [← hsig] at hb
   generalize (evalStep m W S rq).store = S' at ha' hb ⊢
   simp [evalStep, ha', hs', hb]
+
+/-- **re-evaluation recomputes nothing**, kept root or not -/
+theorem reeval_recomputes_nothing (U : Universe) (m : Nat) (W W' : World) (S : PStore) (rq rq' : Request)
+    (hW : U.world W) (hW' : U.world W') (hC : Closed U m S) (hn : S.noop = false)
+    {fn : Fn} {env : Env} {fis1 : FIS} {paths : List (String × Sg)}
+    (ha : analysisPhase m W S rq = .ok (fn, env, fis1, paths)) (hs : Stage.eval ∈ rq.stages)
+    {v : RVal} (hv : (evalStep m W S rq).value = .ok (some v))
+    {fn' : Fn} {env' : Env} {fis2 : FIS} {paths' : List (String × Sg)}
+    (ha' : analysisPhase m W' (evalStep m W S rq).store rq' = .ok (fn', env', fis2, paths'))
+    (hsig : fis2.retSig = fis1.retSig) (hsp : fis2.storePath = fis1.storePath) :
+    (evalStep m W' (evalStep m W S rq).store rq').store.blobs = (evalStep m W S rq).store.blobs :=
+  reeval_writes_nothing U m W W' S rq rq' hW hW' hC hn ha hs hv ha' hsig hsp
+
+/-- the store stays closed along any history from an empty real store (the hypothesis of `reeval_recomputes_nothing`) -/
+theorem closed_along_history (U : Universe) (m : Nat) (hist : List HStep) (hok : ∀ s ∈ hist, U.world s.world) :
+    Closed U m (runHistory m {} hist) ∧ (runHistory m {} hist).noop = false :=
+  closed_history U m hist {} (closed_empty U m false) rfl hok
 
 end Dds.C02
